@@ -12,6 +12,9 @@ type rawPathVariable struct {
 	pathDirective   directive.Directive // to detect and display an error
 	parentDirective directive.Directive
 
+	// parent is the directive the Path directive belongs to (nil for imitated ones).
+	parent *directive.Directive
+
 	// temp workaround. true means that this was not gathered from Path directive,
 	// but from URL or Method-directive, imitating real rawPathVariable
 	imitated bool
